@@ -106,6 +106,7 @@ def run(ctx, col, tier):
     col.guard(r_src, ctx, col)
     col.guard(r_once, ctx, col)
     col.guard(r_pure, ctx, col)
+    col.guard(r_comment, ctx, col)
     col.guard(r_passthrough, ctx, col)
     from ..rules import narrowing
     narrowing.run(ctx, col, (f"{IO}.read_swc", f"{IO}.parse_swc", "swcgeom.core.tree.Tree.from_swc", "swcgeom.core.tree.Tree.from_data_frame",
@@ -938,3 +939,35 @@ def r_once(ctx, col):
               "generator consumed exactly once on every path; id_offset/extra_cols forwarded",
               f"{len(uses)} use sites", f"forwarding={ok_src}, max uses on a path={worst}, "
               f"paths without use={n_zero}", stmt="it")
+
+
+
+def r_comment(ctx, col):
+    """Comment lines are an ordered sequence of texts, returned as written: nothing on the write or read path treats them as a set, or cuts a line
+    at a second separator."""
+    col.rule("R-COMMENT", "comment lines come back in order with the same text: on the write / read path no comment list goes through a de-duplicating or re-ordering "
+             "container (dict.fromkeys, set, sorted, np.unique), and no text is taken as `line.split(sep)[k]` without a split limit (the text after a second "
+             "separator would be lost); zero expected", floor=1)
+    repo = ctx.repo
+    hits = 0
+    defs = [repo.get_def(q) for q in (f"{IO}.parse_swc", f"{IO}.to_swc", "swcgeom.core.swc.SWCLike.to_swc", "swcgeom.core.swc.SWCLike.to_eswc", "swcgeom.core.tree.Tree.from_swc")]
+    for d in defs:
+        for c in own_nodes(d):
+            if isinstance(c, ast.Subscript) and isinstance(c.value, ast.Call) and isinstance(c.value.func, ast.Attribute) and c.value.func.attr in ("split", "rsplit") \
+                    and len(c.value.args) == 1 and not c.value.keywords and isinstance(c.slice, ast.Constant) and isinstance(c.slice.value, int) and c.slice.value not in (0, -1) \
+                    and isinstance(c.value.args[0], ast.Constant) and c.value.args[0].value == "#":
+                hits += 1
+                col.bad("R-COMMENT", d.qualname, d.loc(c), "a comment's text is everything after the comment mark",
+                        f"`{norm_src(c)}` splits at EVERY `#` and keeps one piece: a comment that contains the mark itself (`cell #3 of slice #12`, `## notes`) comes back cut off",
+                        stmt="split-no-limit", definite=True)
+            if isinstance(c, ast.Call):
+                fn = dotted(c.func) or ""
+                if fn in ("dict.fromkeys", "set", "frozenset", "np.unique", "numpy.unique", "sorted", "OrderedDict.fromkeys") and c.args \
+                        and any(isinstance(n, ast.Name) and n.id in ("data", "comments", "comment_lines", "lines") or (isinstance(n, ast.Attribute) and n.attr == "comments")
+                                for n in ast.walk(c.args[0])):
+                    hits += 1
+                    col.bad("R-COMMENT", d.qualname, d.loc(c), "comment lines are a sequence: order and repeats are kept",
+                            f"`{norm_src(c)[:70]}` passes the comment lines through a container that drops repeats or re-orders them: a blank separator line, a ruler line or any line "
+                            f"that occurs twice is written once only", stmt="dedupe", definite=True)
+    if not hits:
+        col.ok("R-COMMENT", "comment-scan", "", "no de-duplicating container and no unlimited split on the comment path", f"{len(defs)} functions scanned", stmt="comment-scan")
